@@ -331,6 +331,16 @@ def doc_cases():
         if ml != el_:
           out.append((cx, S2 + ["S\td\t3\t*", ml], "gfa2", "standard", exp))
           out.append((cx, [ml, "S\td\t3\t*"] + S2, "gfa2", "standard", exp))
+  # white space at the end of a line is part of the last field (every entry
+  # point, see work_docs): a number, an overlap, a placeholder followed by a
+  # blank, an empty field after a final tab
+  for l, ver in (("S\tA\t*\tLN:i:4", "gfa1"), ("S\tA\t*", "gfa1"),
+                 ("L\tA\t+\tB\t+\t3M", "gfa1"), ("S\ta\t4\t*\txx:f:1.5", "gfa2"),
+                 ("E\t*\ta+\tb+\t0\t1\t0\t1\t*", "gfa2")):
+    others = S1 if ver == "gfa1" else S2
+    base = [x for x in others if x.split("\t")[1] != l.split("\t")[1] or l[0] != "S"]
+    for sfx in (" ", "\t", "  ", " \t"):
+      out.append(("trailing-whitespace", base + [l + sfx], ver, "standard", False))
   # rGFA
   sn_ok = "SN:Z:chr1\tSO:i:0\tSR:i:0"
   seg_variants = [
